@@ -36,6 +36,8 @@ GROUPS = {
     'run': ['vm_struct', 'run'],
     'gc': ['gc'],
     'heap': ['gc', 'vcell', 'heap'],
+    'stack': ['vcell', 'stack'],
+    'cont': ['vcell', 'stack', 'vm_struct', 'continuation'],
 }
 
 PROPS = {
@@ -47,7 +49,7 @@ PROPS = {
                 'machine integers are NOT treated as mathematical: Verus checks i64/i32/u32 overflow bit-exactly',
                 'results built inside closures passed to Option::map (float arms of quotient / %) are opaque to Verus',
             ]},
-    'C03': {'groups': ['heap'],
+    'C03': {'groups': ['heap'], 'search': 'search_heap',
             'kani': [
                 {'harness': 'gc_state_from_u8', 'file': 'src/vm/gc.rs', 'kind': 'complete', 'what': 'State::from(u8) is the inverse of State::bits on 0..=2 (all bytes)'},
                 {'harness': 'gc_map_get', 'file': 'src/vm/gc.rs', 'kind': 'complete', 'what': 'Map::get returns the 2-bit field of the addressed cell for every byte content and index (map of 3 bytes), None past capacity: discharges the contract Verus assumes for Map::get'},
@@ -62,17 +64,28 @@ PROPS = {
                 'no Symbol cell is written except through put/maybe_put (get_at_index_mut is outside the contract)',
                 'String keys obey vstd\'s hash-map key model (axiom_string_key); Rc::deref / as_ref / From<&String> specs assumed',
             ]},
-    'C12': {'groups': ['heap'],
+    'C12': {'groups': ['heap'], 'search': 'search_heap',
+            'kani': [
+                {'harness': 'gc_map_get', 'file': 'src/vm/gc.rs', 'kind': 'complete', 'what': 'Map::get returns the 2-bit field of the addressed cell for every byte content and index; None past capacity'},
+                {'harness': 'gc_map_new_resize', 'file': 'src/vm/gc.rs', 'kind': 'bounded', 'bound': 'maps of at most 16 cells', 'what': 'Map::new / Map::resize: capacity follows the new size, new cells free, old cells kept (the sweep loop bound relies on it)'},
+            ],
             'assumptions': [
                 'only the second sentence is decided: immediately after sweep the allocated cells are exactly the cells marked before it (sweep contract), and marking marks nothing that is not reachable from a marked-from root is NOT proved (soundness of mark is the closure direction only)',
                 'heap growth policy / "stops growing" (first sentence) is not decided: it depends on f64 thresholds and histories',
                 'same trusted base as C03',
             ]},
-    'C18': {'groups': ['heap'],
+    'C18': {'groups': ['heap'], 'search': 'search_heap',
             'assumptions': [
                 'decided: the intern-table invariant of Heap (every table entry is a live cell holding that name; every live symbol cell is its name\'s entry) is preserved by alloc, put, maybe_put, free and sweep, and put/maybe_put answer an interned name with the table\'s cell; lemma_intern_unique derives "same name iff same cell"',
                 'not decided: the symbol->string / string->symbol round trip (str code in builtin/symbol.rs and parse.rs); production routes other than Heap::put (reader, macro output) are assumed to go through put',
                 'same trusted base as C03',
+            ]},
+    'C05': {'groups': ['cont'],
+            'assumptions': [
+                'scope: the capture / restore laws of Stack and Vm (to_continuation, restore_continuation, push, pop, grow, clear); that invoking a continuation continues "as if call/cc had just returned v" additionally needs the continuation arm of run_one and call_cc, which are read, not verified',
+                'Continuation is opaque to Verus (derive(Clone) over a tuple field, private fields): its four getters and the struct literal in Vm::to_continuation carry assumed contracts',
+                'restore_continuation requires the saved stack to be no longer than the running one; this holds because stacks never shrink (every Stack operation under contract keeps or doubles the length) but is a whole-history fact, assumed at the call site',
+                '<[T]>::to_vec / clone_from_slice specs assumed',
             ]},
     'C13': {'groups': ['run'], 'search': 'search_run',
             'assumptions': [
